@@ -54,3 +54,35 @@ def cases():
     return [Case("kf1rot7", f1_rotation(7), "corpus"), Case("kf1rot3", f1_rotation(3), "corpus"),
             Case("kf2glob", f2_global_across_call(), "corpus"),
             Case("kf4xpkg", f4_cross_package_contract(), "corpus"), Case("kf4same", f4_same_package_control(), "corpus")]
+
+
+def f21_literal_arg():
+    """x0 = F1(nil); x0.V with func F1(p *T) *T { if opaque() { return &T{} }; return p } (fixed: F21)"""
+    f0 = dict(nparams=0, pkg=0, method=False, body=M.seq([("call", L(0), 1, ["nil"], 1), ("deref", 1, L(0))]))
+    f1 = dict(nparams=1, pkg=0, method=False, body=M.seq([("if", ("opaque",), ("return", "new"), ("skip",)), ("return", L(0))]))
+    return dict(funcs=[f0, f1], ginit=[], gpkg=[], npkgs=1)
+
+
+def f23_loop_overwrite():
+    """x0 = F1(&T{}); x0.V with func F1(p *T) *T { var x *T; if p == nil { return G0 }; for opaque() { p = x }; return p }
+    (fixed: F23, stale nilness of a phi value)"""
+    f0 = dict(nparams=0, pkg=0, method=False, body=M.seq([("call", L(0), 1, ["new"], 1), ("deref", 1, L(0))]))
+    f1 = dict(nparams=1, pkg=0, method=False, body=M.seq([
+        ("if", ("not", ("nonnil", L(0))), ("return", G(0)), ("skip",)),
+        ("while", ("opaque",), ("assign", L(0), L(1))), ("return", L(0))]))
+    return dict(funcs=[f0, f1], ginit=[True], gpkg=[0], npkgs=1)
+
+
+def f3_opaque_nil():
+    """x0 = F1(&T{}); x0.V with func F1(p *T) *T { if opaque() { return nil }; if p == nil { return nil }; return p } (fixed: F3)"""
+    f0 = dict(nparams=0, pkg=0, method=False, body=M.seq([("call", L(0), 1, ["new"], 1), ("deref", 1, L(0))]))
+    f1 = dict(nparams=1, pkg=0, method=False, body=M.seq([
+        ("if", ("opaque",), ("return", "nil"), ("skip",)),
+        ("if", ("not", ("nonnil", L(0))), ("return", "nil"), ("skip",)), ("return", L(0))]))
+    return dict(funcs=[f0, f1], ginit=[], gpkg=[], npkgs=1)
+
+
+def c20_cases():
+    return [Case("kf4xpkg", f4_cross_package_contract(), "corpus"), Case("kf4same", f4_same_package_control(), "corpus"),
+            Case("kf21lit", f21_literal_arg(), "corpus"), Case("kf23loop", f23_loop_overwrite(), "corpus"),
+            Case("kf3opq", f3_opaque_nil(), "corpus")]
